@@ -6,7 +6,7 @@
    unregister calls and of the dispatcher and subscriber goroutines". *)
 From Coq Require Import List Arith NArith Bool String Ascii.
 From Verif Require Import gen.LockProgs model.Bus corr.Run_C20
-  proofs.Bus_proofs proofs.Bus_more_proofs proofs.BusKey_proofs proofs.Bus_final_proofs proofs.BusLocks_proofs.
+  proofs.Bus_proofs proofs.Bus_more_proofs proofs.BusKey_proofs proofs.BusPool_proofs proofs.Bus_final_proofs proofs.BusLocks_proofs.
 Import ListNotations.
 Open Scope string_scope.
 Open Scope list_scope.
@@ -85,6 +85,23 @@ Proof. exact b64_inj. Qed.
 Theorem C20_subject_inj : forall t1 t2,
   wf_target t1 = true -> wf_target t2 = true -> subject_of t1 = subject_of t2 -> same_target t1 t2.
 Proof. exact subject_inj. Qed.
+
+(* C20_subject_inj covers the harness's collision pool (ids together with the
+   texts an encoding step could turn them into -- base64 in its variants, hex,
+   separators replaced or dropped, case, id|backend -- as ids of their own, with
+   and without backends): the judge accepts a table of pool targets only when
+   pool_ok holds (corr/Run_C20.v, mode 3); its side condition is wf_target, and
+   in an accepted table the model's subject function separates every two
+   entries.  So "published for another entry of the table" is "published to
+   another subject", and a callback P_C20 (c) calls foreign on such a table is a
+   collision of the implementation's subject function (or a misrouted message). *)
+Theorem C20_pool_side_condition : forall t, pool_wf t = wf_target t.
+Proof. exact pool_wf_is_wf_target. Qed.
+Theorem C20_pool_subjects_distinct : forall tb, pool_ok tb = true ->
+  forall i j, i < List.length tb -> j < List.length tb -> i <> j ->
+  wf_target (tgt tb i) = true /\ wf_target (tgt tb j) = true /\
+  subject_of (tgt tb i) <> subject_of (tgt tb j).
+Proof. exact pool_subjects_distinct. Qed.
 
 (* partial: under the side condition on every target named in the history *)
 Theorem C20_nothing_foreign_partial : forall ops j l m,
@@ -257,6 +274,24 @@ Example C20_model_double_unregister :
   dlog t = [(0, 1%N, 7%N)] /\ map ls (subs t) = [[1%N]] /\ map opened (subs t) = [true].
 Proof. vm_compute. repeat split; reflexivity. Qed.
 
+(* The judge of the collision-pool cases (mode 3) on the history the seeded change C20-5 produces
+   (user "mary jane" encodes to user.bWFyeSBqYW5l, the user literally named "bWFyeSBqYW5l" is mapped
+   raw to the same subject; listener 1 of the latter gets message 10 published for the former):
+   the table passes pool_ok, the subject strings differ from the model's (code 3 at entry 1), the
+   model cannot follow the callback (code 1) and P_C20 fails at clause 3 on the implementation's
+   own trace (code 2).  The same history with correct subject strings and no foreign callback is
+   accepted; a table from the region of the known finding is refused as a pool table (code 5). *)
+Example C20_judge_pool :
+  judge (mkcase 7 3 [(T KUser "mary jane" None, "user.bWFyeSBqYW5l");
+                     (T KUser "bWFyeSBqYW5l" None, "user.bWFyeSBqYW5l")]
+                [EReg 1 1 true; EPub 0 10 77 true; ERecv 1 2 10 77 false]) = [(7, 3, 1); (7, 1, 2); (7, 2, 3)]%N
+  /\ judge (mkcase 7 3 [(T KUser "mary jane" None, "user.bWFyeSBqYW5l");
+                        (T KUser "bWFyeSBqYW5l" None, "user.YldGeWVTQnFZVzVs")]
+                [EReg 1 1 true; EPub 0 10 77 true; EPub 1 11 78 true; ERecv 1 2 11 78 false]) = []
+  /\ judge (mkcase 7 3 [(T KUser "u|x" None, "user.dXx4"); (T KUser "u" (Some "x"), "user.dXx4")]
+                [EReg 0 1 true; EPub 0 10 77 true; ERecv 1 2 10 77 false]) = [(7, 5, 0)]%N.
+Proof. vm_compute. repeat split; reflexivity. Qed.
+
 Print Assumptions C20_bus_fifo_exact.
 Print Assumptions C20_received_is_prefix.
 Print Assumptions C20_drained_equal.
@@ -266,6 +301,8 @@ Print Assumptions C20_callback_provenance.
 Print Assumptions C20_subject_kind_inj.
 Print Assumptions C20_b64_inj.
 Print Assumptions C20_subject_inj.
+Print Assumptions C20_pool_side_condition.
+Print Assumptions C20_pool_subjects_distinct.
 Print Assumptions C20_nothing_foreign_partial.
 Print Assumptions C20_nothing_foreign_refuted.
 Print Assumptions C20_subject_collision.
